@@ -22,6 +22,12 @@ def make_scenarios(ctx, count):
         frames = [G.f_discover(rng, net, m=m, tos=0, bridged=bridged)]
         seq = rng.randint(1, 60000)
         for rnd in range(rng.randint(2, 4)):
+            if rnd > 0 and rng.random() < 0.3:
+                # nothing is pending here (drained or reset); quick-discovery traffic must not stop recording
+                if rng.random() < 0.5:
+                    frames.append(G.f_discover(rng, net, m=m, tos=1, bridged=bridged))
+                frames.append(G.f_reset(rng, net, m=rng.choice([m, (m + 1) % 3]), tos=1))
+                quick_reset_before_burst = True
             kchoices = [0, 1, cap - 1, cap, cap + 1, 2 * cap, 300, rng.randint(0, 300)]
             k = min(300, max(0, rng.choice(kchoices)))
             if mtu > 4000 and k > 120 and rng.random() < 0.7:
@@ -110,7 +116,11 @@ def monitor(scn, sobj, rep, sf, ck):
         if op == W.OP_RESET:
             om.reset()
             continue
-        if op != W.OP_QUERY or not (mm.state == MapperModel.ACTIVE and fr[24:30] == mm.mapper):
+        if op != W.OP_QUERY:
+            continue
+        # every Query in this workload comes from the session's mapper; a quick-discovery Reset in between may have
+        # released the mapper role (C05) but the topology session's Queries are still the mapper's and are judged
+        if mm.state == MapperModel.UNKNOWN:
             continue
         seq = struct.unpack(">H", fr[30:32])[0]
         queries += 1
